@@ -324,6 +324,7 @@ def run_sessions(case, quiet, only=None, fs=None):
     results = {i: [] for i in range(n)}
     states = {}
     econ_sess = econ.Session()     # one interpreter, handles are prefixed per session
+    econ_sess.fs_patched = True
     pos = [0] * n
     schedule = normalise_schedule(case) if only is None else [only] * len(sessions[only]['ops'])
     Logger.log_file_handles = {}
